@@ -5,6 +5,7 @@ import (
 	"go/ast"
 	"go/token"
 	"go/types"
+	"rocheck/internal/lockset"
 	"sort"
 	"strings"
 
@@ -100,6 +101,7 @@ func Build(prog *load.Program) (*Model, error) {
 	for _, p := range m.Pkgs {
 		m.indexPackage(p)
 	}
+	m.computeAliases()
 	for _, p := range m.Pkgs {
 		m.findSCs(p)
 	}
@@ -267,8 +269,8 @@ func (m *Model) findSCs(p *packages.Package) {
 				return true
 			}
 			for _, a := range call.Args {
-				lit, ok := ast.Unparen(a).(*ast.FuncLit)
-				if !ok {
+				lit := m.subscribeLiteral(p, a)
+				if lit == nil {
 					continue
 				}
 				sig, _ := info.TypeOf(lit).(*types.Signature)
@@ -290,10 +292,17 @@ func (m *Model) findSCs(p *packages.Package) {
 					sc.Ctx0 = params[ctxIdx]
 				}
 				sc.Chain = m.EnclosingFuncs(p, lit)
+				// a subscribe function that was extracted into a helper returning it is named after (and applied in) the
+				// function that hands it to the constructor
+				if ctorChain := m.EnclosingFuncs(p, call); len(ctorChain) > 0 && len(sc.Chain) > 0 && ctorChain[0] != sc.Chain[0] {
+					sc.Chain = append(append([]ast.Node{}, ctorChain...), sc.Chain...)
+				}
 				for _, c := range sc.Chain {
 					switch x := c.(type) {
 					case *ast.FuncDecl:
-						sc.Decl = x
+						if sc.Decl == nil {
+							sc.Decl = x
+						}
 					case *ast.FuncLit:
 						if x != lit && m.IsAppLit(info, x) {
 							sc.App = x
@@ -320,6 +329,54 @@ func (m *Model) findSCs(p *packages.Package) {
 			return true
 		})
 	}
+}
+
+// subscribeLiteral resolves the subscribe function handed to an observable constructor: the literal itself, a local
+// closure variable bound to one literal, or a call of a same-package function whose single return hands back a literal.
+func (m *Model) subscribeLiteral(p *packages.Package, a ast.Expr) *ast.FuncLit {
+	info := p.TypesInfo
+	switch x := ast.Unparen(a).(type) {
+	case *ast.FuncLit:
+		return x
+	case *ast.Ident:
+		o := info.Uses[x]
+		if o == nil {
+			return nil
+		}
+		var lit *ast.FuncLit
+		for _, d := range m.Defs[o] {
+			if d.Expr == nil {
+				return nil
+			}
+			l, ok := ast.Unparen(d.Expr).(*ast.FuncLit)
+			if !ok || lit != nil {
+				return nil
+			}
+			lit = l
+		}
+		return lit
+	case *ast.CallExpr:
+		d := m.Decls[Callee(info, x)]
+		if d == nil || d.Pkg != p || d.Decl.Body == nil {
+			return nil
+		}
+		var lit *ast.FuncLit
+		n := 0
+		ast.Inspect(d.Decl.Body, func(y ast.Node) bool {
+			if _, ok := y.(*ast.FuncLit); ok {
+				return false // returns of nested literals are not the helper's
+			}
+			if r, ok := y.(*ast.ReturnStmt); ok && len(r.Results) == 1 {
+				n++
+				lit = m.subscribeLiteral(d.Pkg, r.Results[0])
+			}
+			return true
+		})
+		if n == 1 {
+			return lit
+		}
+	}
+	return nil
 }
 
 func flattenParams(info *types.Info, fl *ast.FieldList) []*types.Var {
@@ -355,3 +412,155 @@ func (m *Model) SCByName(name string) *SC {
 
 // InScope reports whether the SC's package is one of the given package paths.
 func InScope(sc *SC, scope map[string]bool) bool { return scope[sc.Pkg.PkgPath] }
+
+// aliases: local variables that are nothing but another name for a variable, a field or a method value.
+var aliases map[types.Object]ast.Expr
+
+// methodAliases: local variables bound once to a method value (next := destination.NextWithContext).
+var methodAliases map[types.Object]*types.Func
+
+// methodAliasExprs: the method value expression such a local was bound to.
+var methodAliasExprs map[types.Object]ast.Expr
+
+// MethodValueOf returns the selector `x.M` a local was bound to once (next := x.M), or nil.
+func MethodValueOf(o types.Object) *ast.SelectorExpr {
+	if e := methodAliasExprs[o]; e != nil {
+		if sel, ok := ast.Unparen(e).(*ast.SelectorExpr); ok {
+			return sel
+		}
+	}
+	return nil
+}
+
+// AliasOf returns the expression a pure alias variable stands for (nil when o is not one).
+func AliasOf(o types.Object) ast.Expr { return aliases[o] }
+
+func (m *Model) computeAliases() {
+	aliases = map[types.Object]ast.Expr{}
+	methodAliases = map[types.Object]*types.Func{}
+	methodAliasExprs = map[types.Object]ast.Expr{}
+	for o, defs := range m.Defs {
+		v, ok := o.(*types.Var)
+		if !ok || v.IsField() || len(defs) != 1 || defs[0].Expr == nil || v.Pkg() == nil || v.Parent() == v.Pkg().Scope() {
+			continue
+		}
+		var info *types.Info
+		for _, p := range m.Pkgs {
+			if p.Types == v.Pkg() {
+				info = p.TypesInfo
+			}
+		}
+		if info == nil {
+			continue
+		}
+		// parameters have an implicit definition (the argument): only variables whose single definition is their
+		// declaration (`x := e`, `var x = e`) qualify
+		isParam := true
+		switch n := defs[0].Node.(type) {
+		case *ast.AssignStmt:
+			isParam = n.Tok != token.DEFINE
+		case *ast.ValueSpec:
+			isParam = false
+		}
+		e := ast.Unparen(defs[0].Expr)
+		addr := false
+		if u, ok := e.(*ast.UnaryExpr); ok && u.Op == token.AND {
+			e = ast.Unparen(u.X)
+			addr = true
+		}
+		// a copy of a value is another name for it only while the original is never written again: the root variable
+		// must have no definition besides its own declaration (a parameter, or a local defined once); a field is
+		// aliased only through its address
+		if se, isSel := e.(*ast.SelectorExpr); isSel && !addr {
+			sel, ok := info.Selections[se]
+			switch {
+			case ok && sel.Kind() == types.MethodVal:
+			case ok && sel.Kind() == types.FieldVal:
+				// a copy of a field of a struct *value* that is itself never written (config.ResetOnError of a by-value
+				// parameter) cannot diverge from the field; a field reached through a pointer can
+				rid, isID := ast.Unparen(se.X).(*ast.Ident)
+				if !isID {
+					continue
+				}
+				if t := info.TypeOf(rid); t == nil {
+					continue
+				} else if _, isPtr := t.Underlying().(*types.Pointer); isPtr {
+					continue
+				} else if _, isStruct := t.Underlying().(*types.Struct); !isStruct {
+					continue
+				}
+			default:
+				continue
+			}
+		}
+		stable := true
+		ast.Inspect(e, func(n ast.Node) bool {
+			if id, ok := n.(*ast.Ident); ok {
+				if rv, isVar := info.Uses[id].(*types.Var); isVar && !rv.IsField() {
+					if len(m.Defs[rv]) > 1 {
+						stable = false
+					}
+					if len(m.Defs[rv]) == 1 {
+						switch n := m.Defs[rv][0].Node.(type) {
+						case *ast.AssignStmt:
+							if n.Tok != token.DEFINE {
+								stable = false
+							}
+						case *ast.ValueSpec:
+						default:
+							stable = false
+						}
+					}
+				}
+			}
+			return true
+		})
+		if !stable {
+			continue
+		}
+		pure := true
+		for x := e; pure; {
+			switch y := x.(type) {
+			case *ast.Ident:
+				if _, isVar := info.Uses[y].(*types.Var); !isVar {
+					pure = false
+				}
+				x = nil
+			case *ast.SelectorExpr:
+				if sel, ok := info.Selections[y]; ok && sel.Kind() == types.FieldVal {
+					x = ast.Unparen(y.X)
+				} else if ok && sel.Kind() == types.MethodVal {
+					if fn, isFn := sel.Obj().(*types.Func); isFn && x == e && !isParam {
+						methodAliases[o] = fn.Origin()
+						methodAliasExprs[o] = defs[0].Expr
+					}
+					pure = false
+				} else {
+					pure = false
+				}
+			default:
+				pure = false
+			}
+			if x == nil {
+				break
+			}
+		}
+		if pure && !isParam {
+			aliases[o] = defs[0].Expr
+		}
+	}
+	lockset.Alias = AliasOf
+	aliasUses = map[*ast.Ident]ast.Expr{}
+	for _, p := range m.Pkgs {
+		for id, o := range p.TypesInfo.Uses {
+			if a := aliases[o]; a != nil {
+				aliasUses[id] = a
+			}
+		}
+	}
+}
+
+var aliasUses map[*ast.Ident]ast.Expr
+
+// AliasOfIdent returns what a use of a pure alias variable stands for (nil otherwise).
+func AliasOfIdent(id *ast.Ident) ast.Expr { return aliasUses[id] }
